@@ -822,6 +822,22 @@ type CapStep struct {
 	// Decisive counts the (retained capability, type) pairs of the verification
 	// script whose outcome is decided by the controller-side type check alone.
 	Decisive int
+	// VerifyFlags are the borrow classes (see classify) the check<T> calls of the
+	// verification script exercise.
+	VerifyFlags map[string]bool
+}
+
+func (m *CapModel) verifyFlags() map[string]bool {
+	flags := map[string]bool{}
+	for _, a := range m.Accts {
+		for _, c := range m.St[a].Kept {
+			for bt := BT(0); bt < nBT; bt++ {
+				ok, _ := m.Borrow(c, bt)
+				m.classify(flags, c, bt, ok)
+			}
+		}
+	}
+	return flags
 }
 
 // decisiveControllerCases: retained capabilities and wanted types for which the
@@ -903,7 +919,17 @@ func (m *CapModel) genAction(c Chooser, w *CapModel) (KAction, bool) {
 		}
 		return rel[c.Intn("rel", len(rel))]
 	}
-	op := Weighted(c, "op", []int{10, 3, 5, 4, 4, 10, 3, 9, 6, 3, 8, 5, 2, 16, 8, 4, 2, 5, 12, 4})
+	op := Weighted(c, "op", []int{10, 3, 5, 4, 4, 10, 3, 9, 6, 3, 8, 5, 2, 16, 8, 5, 4, 6, 12, 4})
+	// inbox reads are pointless most of the time while every inbox is empty: publish instead
+	if op == 16 || op == 17 {
+		entries := 0
+		for _, x := range m.Accts {
+			entries += len(w.St[x].Inbox)
+		}
+		if entries == 0 && !Chance(c, "emptyinbox", 1, 6) {
+			op = 15
+		}
+	}
 	// operations on retained capabilities need an account that retains one
 	switch op {
 	case 8, 13, 14, 15:
@@ -924,7 +950,7 @@ func (m *CapModel) genAction(c Chooser, w *CapModel) (KAction, bool) {
 				have = append(have, x)
 			}
 		}
-		if len(have) > 0 && !Chance(c, "emptyinbox", 1, 5) {
+		if len(have) > 0 {
 			a = have[c.Intn("provider", len(have))]
 			st = w.St[a]
 		}
@@ -986,6 +1012,20 @@ func (m *CapModel) genAction(c Chooser, w *CapModel) (KAction, bool) {
 	case 10, 11:
 		b := other()
 		q := c.Intn("q", NPub)
+		// mostly look at something that is published
+		type pq struct{ b, q int }
+		var pubs []pq
+		for _, bb := range m.Accts {
+			for qq := 0; qq < NPub; qq++ {
+				if w.St[bb].Published[qq] != nil {
+					pubs = append(pubs, pq{bb, qq})
+				}
+			}
+		}
+		if len(pubs) > 0 && !Chance(c, "unpublished", 1, 5) {
+			x := pubs[c.Intn("pub", len(pubs))]
+			b, q = x.b, x.q
+		}
 		bt := anyBT()
 		if p := w.St[b].Published[q]; p != nil {
 			bt = relatedBT(p.BT)
@@ -993,7 +1033,7 @@ func (m *CapModel) genAction(c Chooser, w *CapModel) (KAction, bool) {
 		if op == 10 {
 			// retaining a capability whose type differs from its controller's makes the
 			// controller-side check observable later on
-			if w.St[b].Published[q] != nil && Chance(c, "asany", 1, 3) {
+			if p := w.St[b].Published[q]; p != nil && BTs[p.BT].Ref != "AnyStruct" && refSub(BTs[p.BT].Ref, "AnyStruct") && Chance(c, "asany", 1, 2) {
 				bt = 4
 			}
 			return KAction{Op: "pget", A: a, B: b, Q: q, BT: bt, Keep: Chance(c, "keep", 2, 3)}, true
@@ -1020,7 +1060,15 @@ func (m *CapModel) genAction(c Chooser, w *CapModel) (KAction, bool) {
 	case 16:
 		name := inboxNames[c.Intn("name", len(inboxNames))]
 		bt := anyBT()
-		if e, ok := st.Inbox[name]; ok && !Chance(c, "mismatch", 1, 6) {
+		if len(st.Inbox) > 0 && !Chance(c, "othername", 1, 6) {
+			var ns []string
+			for n := range st.Inbox {
+				ns = append(ns, n)
+			}
+			sort.Strings(ns)
+			name = ns[c.Intn("inboxname", len(ns))]
+		}
+		if e, ok := st.Inbox[name]; ok && !Chance(c, "mismatch", 1, 3) {
 			bt = superOf(c, e.Cap.BT)
 		}
 		return KAction{Op: "iunpublish", A: a, Name: name, BT: bt}, true
@@ -1050,7 +1098,7 @@ func (m *CapModel) genAction(c Chooser, w *CapModel) (KAction, bool) {
 				st = w.St[a]
 			}
 		}
-		if e, ok := w.St[b].Inbox[name]; ok && !Chance(c, "mismatch", 1, 6) {
+		if e, ok := w.St[b].Inbox[name]; ok && !Chance(c, "mismatch", 1, 4) {
 			bt = superOf(c, e.Cap.BT)
 		}
 		return KAction{Op: "iclaim", A: a, B: b, Name: name, BT: bt}, true
@@ -1060,7 +1108,21 @@ func (m *CapModel) genAction(c Chooser, w *CapModel) (KAction, bool) {
 			// replace: load first
 			return KAction{Op: "load", A: a, P: p}, true
 		}
-		return KAction{Op: "save", A: a, P: p, Kind: kinds[Weighted(c, "kind", []int{5, 2, 3, 1})]}, true
+		kind := kinds[Weighted(c, "kind", []int{5, 2, 3, 1})]
+		// sometimes store a struct the controllers of this path are not typed for
+		for _, id := range w.idsFor(a, false, p) {
+			switch BTs[st.Ctrls[id].BT].Ref {
+			case "S", "I":
+				if Chance(c, "mistype", 1, 3) {
+					kind = "S2"
+				}
+			case "S2":
+				if Chance(c, "mistype", 1, 3) {
+					kind = "S"
+				}
+			}
+		}
+		return KAction{Op: "save", A: a, P: p, Kind: kind}, true
 	default:
 		return KAction{Op: "load", A: a, P: c.Intn("p", NPaths)}, true
 	}
@@ -1093,12 +1155,34 @@ func GenCapHistory(c Chooser, o CapGenOptions) *CapHistory {
 			}
 		}
 	}
-	if len(first.Actions) > 0 {
+	emit := func(tx KTx) {
 		before := m.clone()
-		st := CapStep{Tx: first, Source: m.Source(first, before)}
-		st.Expect = m.Apply(first)
+		st := CapStep{Tx: tx, Source: m.Source(tx, before)}
+		st.Expect = m.Apply(tx)
 		st.Verify, st.VerifyWant = m.VerifyScript()
+		st.Decisive = m.decisiveControllerCases()
+		st.VerifyFlags = m.verifyFlags()
 		h.Steps = append(h.Steps, st)
+	}
+	if len(first.Actions) > 0 {
+		emit(first)
+	}
+	// directed prelude (1 in 3 histories): a retained capability whose type is wider
+	// than its controller's, over a target that then holds an unrelated struct — the
+	// situation in which only the controller-side check of the borrow rule decides
+	if Chance(c, "scenario", 1, 3) {
+		a := m.Accts[c.Intn("acct", len(m.Accts))]
+		p, q := c.Intn("p", NPaths), c.Intn("q", NPub)
+		k := []BT{0, 1, 2, 6, 5}[c.Intn("ctlbt", 5)]
+		slot := len(m.St[a].Kept)
+		emit(KTx{Actions: []KAction{{Op: "issue", A: a, BT: k, P: p}, {Op: "publish", A: a, Slot: slot, Q: q}}})
+		holder := m.Accts[c.Intn("holder", len(m.Accts))]
+		emit(KTx{Actions: []KAction{{Op: "pget", A: holder, B: a, Q: q, BT: 4, Keep: true}}})
+		kind := "S2"
+		if k == 5 {
+			kind = "S"
+		}
+		emit(KTx{Actions: []KAction{{Op: "load", A: a, P: p}, {Op: "save", A: a, P: p, Kind: kind}}})
 	}
 	total := 20 + c.Intn("actions", o.MaxActions-19)
 	for n := 0; n < total; {
@@ -1121,12 +1205,7 @@ func GenCapHistory(c Chooser, o CapGenOptions) *CapHistory {
 			continue
 		}
 		tx.Abort = Chance(c, "abort", 1, 12)
-		before := m.clone()
-		st := CapStep{Tx: tx, Source: m.Source(tx, before)}
-		st.Expect = m.Apply(tx)
-		st.Verify, st.VerifyWant = m.VerifyScript()
-		st.Decisive = m.decisiveControllerCases()
-		h.Steps = append(h.Steps, st)
+		emit(tx)
 	}
 	return h
 }
